@@ -44,6 +44,11 @@ func (blockchain *Blockchain) AddBlock(timestamp int64, transactions []*ledger.T
 	var previousHash [32]byte
 	if !blockchain.isEmpty() {
 		previousBlock := blockchain.blocks[len(blockchain.blocks)-1]
+		// The caller computed the timestamp from a last block it read earlier: refuse to append when the
+		// blockchain has moved meanwhile (peers only accept a block dated after its predecessor)
+		if timestamp <= previousBlock.Timestamp() {
+			return fmt.Errorf("unable to add a block dated %d after a block dated %d", timestamp, previousBlock.Timestamp())
+		}
 		var err error
 		previousHash, err = previousBlock.Hash()
 		if err != nil {
